@@ -151,9 +151,6 @@ theorem constant_array (c : Rat) (n : Nat) :
 
 /-! ## units -/
 
-theorem U.mem_all (u : U) : u ∈ U.all := by cases u <;> decide
-theorem Rel.mem_all (r : Rel) : r ∈ Rel.all := by cases r <;> decide
-
 /-- the conversions the property statement allows: both length, both angle, or no change -/
 def Allowed (u v : U) : Prop := (u ∈ lengthUnits ∧ v ∈ lengthUnits) ∨ (u ∈ angleUnits ∧ v ∈ angleUnits) ∨ u = v
 
@@ -348,44 +345,6 @@ theorem f11_counterexample :
 
 /-! ## companion arrays -/
 
-theorem secondsFromStart_length (ts : List Rat) : (secondsFromStart ts).length = ts.length := by
-  cases ts <;> simp [secondsFromStart]
-
-theorem reduceIds_length_of_valid {α} (l : List α) (ids : List Nat) (h : ∀ i ∈ ids, i < l.length) :
-    (reduceIds l ids).length = ids.length := by
-  induction ids with
-  | nil => simp [reduceIds]
-  | cons i r ih =>
-    have hi := h i (by simp)
-    have hr := ih (fun j hj => h j (by simp [hj]))
-    simp only [reduceIds] at hr ⊢
-    rw [List.filterMap_cons, List.getElem?_eq_getElem hi]
-    simp [hr]
-
-theorem reduceIds_getElem {α} (l : List α) (ids : List Nat) (h : ∀ i ∈ ids, i < l.length) (k : Nat)
-    (hk : k < ids.length) : (reduceIds l ids)[k]? = l[ids[k]]? := by
-  induction ids generalizing k with
-  | nil => simp at hk
-  | cons i r ih =>
-    have hi := h i (by simp)
-    simp only [reduceIds] at ih ⊢
-    rw [List.filterMap_cons, List.getElem?_eq_getElem hi]
-    cases k with
-    | zero => simp [List.getElem?_eq_getElem hi]
-    | succ k =>
-      simp only [List.getElem?_cons_succ, List.getElem_cons_succ]
-      exact ih (fun j hj => h j (by simp [hj])) k (by simpa using hk)
-
-theorem stepSq_length (ps : List (V3 Rat)) : (stepSq ps).length = ps.length - 1 := by
-  induction ps with
-  | nil => rfl
-  | cons a r ih =>
-    cases r with
-    | nil => rfl
-    | cons b r' =>
-      simp only [stepSq, List.length_cons] at ih ⊢
-      omega
-
 /-- **APE: every companion array has exactly one entry per pose (= per error value)**;
 `distances` has one entry per stored pose (`refStepSq.length + 1`) -/
 theorem ape_companions_length (ts : List Rat) (pr pe : List (V3 Rat)) (hn : 0 < ts.length)
@@ -509,7 +468,6 @@ theorem ratio_filter_aligned (r e : List Rat) (ids : List Nat) :
 
 /-! ## non-vacuity: the hypotheses are satisfiable on concrete, non-trivial instances -/
 
-theorem sort_example : sort [3, 1, 2, 6] = [1, 2, 3, 6] := sort_eq_of_sorted_perm (by decide) (by decide)
 example : median [3, 1, 2, 6] = 5 / 2 := by
   simp only [median, sort_example]; decide +kernel
 example : (meanSq [1, 2, 3, 6], mean [1, 2, 3, 6], var [1, 2, 3, 6], minL [1, 2, 3, 6], maxL [1, 2, 3, 6], sse [1, 2, 3, 6])
